@@ -64,3 +64,103 @@ def run(chk, cid, prog, cfgname, unit='SRC/mc64ad.c', arrays=('q',)):
         from ..run import AnalysisBroken
         raise AnalysisBroken('inplace: %d list-consuming loops over the MC64 work arrays found, floor 4' % n)
     return n
+
+
+def match_count_rule(chk, cid, prog, cfgname, fname='mc64wd_'):
+    """*num counts matched columns; mc64ad_ reports a structurally singular matrix exactly when *num < n.  Inside the shortest-augmenting-path
+    loop the counter may therefore be advanced only on the path where a path was found: every `++(*num)` in that loop must be cut off from
+    the `csp == rinf` test by its false edge (csp != rinf)."""
+    from ..facts import const_value
+    chk.clause(cid, 'the match counter advances only after an augmenting path was found')
+    f = prog.func(fname)
+    if f is None:
+        from ..run import AnalysisBroken
+        raise AnalysisBroken('%s not found' % fname)
+    chk.saw(unit=f.unit, func=f.unit + ':' + f.name)
+    ids = {nm: i for (nm, i, t) in f.params}
+    cfg = prog.cfg(f)
+    numid = ids.get('num')
+    conds = []
+    incs = []
+    for cn in cfg.nodes:
+        if cn.ast is None:
+            continue
+        if cn.kind == 'cond':
+            c = strip(cn.ast)
+            if c.k == 'Binary' and c.a['op'] == '==' and {strip(c.c[0]).a.get('name'), strip(c.c[1]).a.get('name')} == {'csp', 'rinf'}:
+                conds.append(cn)
+        if cn.kind == 'stmt':
+            for x in cn.ast.walk():
+                if x.k == 'Unary' and x.a['op'] in ('++', 'post++'):
+                    t = strip(x.c[0])
+                    if t.k == 'Unary' and t.a['op'] == '*' and strip(t.c[0]).k == 'Ref' and strip(t.c[0]).a.get('id') == numid:
+                        incs.append(cn)
+    if len(conds) != 1 or not incs:
+        from ..run import AnalysisBroken
+        raise AnalysisBroken('%s: `csp == rinf` test (%d) / increments of *num (%d) not found as expected' % (fname, len(conds), len(incs)))
+    C = conds[0]
+    # increments that belong to the augmenting loop: the ones from which C can be reached again (same loop) or that C reaches
+    def reach(src, avoid_edge=None):
+        seen = set()
+        st = [src]
+        while st:
+            q = st.pop()
+            if q in seen:
+                continue
+            seen.add(q)
+            for (s, lab) in cfg.nodes[q].succ:
+                if avoid_edge is not None and q == avoid_edge[0] and lab == avoid_edge[1]:
+                    continue
+                st.append(s)
+        return seen
+    from_c_any = reach(C.id)
+    from_c_true_only = reach(C.id, avoid_edge=(C.id, False))
+    n = 0
+    for N in incs:
+        to_c = C.id in reach(N.id)
+        if not (to_c and N.id in from_c_any):
+            continue        # the greedy initial matching before the main loop
+        n += 1
+        inst = '%s:num-advanced-after-success@%d' % (fname, n)
+        # violation: N is reachable from C without taking the false edge *before* coming back to C, or N lies on a path into C from the loop head
+        bad_after = N.id in _reach_until(cfg, C.id, stop=C.id, avoid_edge=(C.id, False))
+        bad_before = not _must_pass_edge(cfg, C, N)
+        if bad_after or bad_before:
+            chk.violate(cid, inst, loc(f, N.ast), fname,
+                        '`%s` is executed in the augmenting loop on a path that does not come from the false edge of `csp == rinf`: a failed search is counted as a '
+                        'match, *num reaches n and a structurally singular matrix is reported as success' % pretty(N.ast)[:30], cfgname=cfgname)
+        else:
+            chk.ok(cid, inst, sample='%s only behind csp != rinf' % pretty(N.ast)[:30])
+    if n < 1:
+        from ..run import AnalysisBroken
+        raise AnalysisBroken('%s: no increment of *num inside the augmenting loop' % fname)
+    return n
+
+
+def _reach_until(cfg, src, stop, avoid_edge):
+    """nodes reachable from src without traversing avoid_edge and without passing through `stop` again"""
+    seen = set()
+    st = [s for (s, lab) in cfg.nodes[src].succ if not (src == avoid_edge[0] and lab == avoid_edge[1])]
+    while st:
+        q = st.pop()
+        if q in seen or q == stop:
+            continue
+        seen.add(q)
+        st.extend(s for (s, _) in cfg.nodes[q].succ)
+    return seen
+
+
+def _must_pass_edge(cfg, C, N):
+    """every path from the function entry to N whose last visit of the loop ... simplified: N is not reachable from entry when C's false edge is removed"""
+    seen = set()
+    st = [cfg.entry.id]
+    while st:
+        q = st.pop()
+        if q in seen:
+            continue
+        seen.add(q)
+        for (s, lab) in cfg.nodes[q].succ:
+            if q == C.id and lab is False:
+                continue
+            st.append(s)
+    return N.id not in seen
